@@ -29,8 +29,13 @@ func (tr *Trans) allocBound(x *ssa.MakeSlice, cp Term) {
 		es = 16
 	}
 	ord := tr.ordinal("alloc", x)
+	bound := intT(maxAllocDefault)
+	if tr.contract != nil && tr.top && tr.contract.Allocs[ord] != nil {
+		env := tr.topEnv(tr.st)
+		bound = env.eval(tr.contract.Allocs[ord].AST).C[0]
+	}
 	tr.e.oblige(&Obl{Name: fmt.Sprintf("%s#alloc#%d", tr.label, ord), Kind: "alloc-bound", Cond: tr.rc,
-		Goal: le(mul(cp, intT(es)), intT(maxAllocDefault)), Pos: tr.posOf(x), Fn: tr.label, Props: tr.safetyProps()})
+		Goal: le(mul(cp, intT(es)), bound), Pos: tr.posOf(x), Fn: tr.label, Props: tr.safetyProps()})
 }
 
 func ifaceMethodKey(t types.Type, method string) string {
@@ -347,9 +352,9 @@ func (tr *Trans) applyContract(ct *Contract, fn *ssa.Function, sig *types.Signat
 	if tr.g.dry == 0 {
 		for _, rq := range ct.Requires {
 			env := mkEnv(pre, pre)
-			t := env.evalBool(rq.AST)
+			t, extra := tr.goalClause(env, rq.AST)
 			tr.e.oblige(&Obl{Name: fmt.Sprintf("%s#requires@%s#%d:%s", tr.label, short, ord, rq.Label), Kind: "requires@call",
-				Props: unionProps(rq.Props, tr.propsOf()), Cond: tr.rc, Goal: t, Pos: tr.posOf(in), Fn: tr.label})
+				Props: unionProps(rq.Props, tr.propsOf()), Cond: tr.rc, Goal: t, Pos: tr.posOf(in), Fn: tr.label, Extra: extra})
 		}
 	}
 	// effects
@@ -370,14 +375,13 @@ func (tr *Trans) applyContract(ct *Contract, fn *ssa.Function, sig *types.Signat
 		tr.st.set("$wm", nwm)
 	}
 	res := tr.freshVal(resT, "res$"+shortLast(short), tr.st, tr.rc)
-	env := mkEnv(pre, tr.st)
+	env := mkEnv(pre, tr.st.clone())
 	tr.bindResults(env, ct, sig, res)
 	if ct.NonNil && len(res.C) >= 1 {
 		tr.e.assume(tr.rc, not(eq(res.C[0], intT(0))))
 	}
 	for _, en := range ct.Ensures {
-		t := env.evalBool(en.AST)
-		tr.e.assume(tr.rc, t)
+		tr.assumeClause(env, tr.rc, en.AST)
 	}
 	tr.callerAsserts("after", short, ord, args, res, pre, tr.st)
 	return res
@@ -429,9 +433,9 @@ func (tr *Trans) callerAsserts(when, callee string, ord int, args []Val, res Val
 			env.vars["callres"] = res
 		}
 		env.vars["__pre_call"] = Val{}
-		t := env.evalBool(as.Clause.AST)
+		t, extra := tr.goalClause(env, as.Clause.AST)
 		tr.e.oblige(&Obl{Name: fmt.Sprintf("%s#assert-%s@%s#%d:%s", tr.label, when, as.Callee, ord, as.Clause.Label), Kind: "assert",
-			Props: as.Clause.Props, Cond: tr.rc, Goal: t, Pos: as.Clause.Where, Fn: tr.label})
+			Props: as.Clause.Props, Cond: tr.rc, Goal: t, Pos: as.Clause.Where, Fn: tr.label, Extra: extra})
 	}
 }
 
@@ -442,6 +446,9 @@ func (tr *Trans) topEnv(post *State) *Env {
 		n := p.Name()
 		if tr.contract != nil && i < len(tr.contract.Params) && len(tr.contract.Params) == len(tr.fn.Params) {
 			n = tr.contract.Params[i]
+		}
+		if i < len(tr.nameOverride) {
+			n = tr.nameOverride[i]
 		}
 		if i < len(tr.params) {
 			env.vars[n] = tr.params[i]
@@ -457,14 +464,14 @@ func (tr *Trans) topEnv(post *State) *Env {
 // ---------- assigns targets ----------
 
 type target struct {
-	key   string
-	sort  Sort
-	whole bool // entire key
-	ref   Term // object whose entry may change
+	key    string
+	sort   Sort
+	whole  bool // entire key
+	ref    Term // object whose entry may change
 	ranged bool
 	lo, hi Term // absolute index range within the backing array
-	desc  string
-	cond  Term // the target may change only when cond holds (empty = always)
+	desc   string
+	cond   Term // the target may change only when cond holds (empty = always)
 }
 
 // fieldTargets lists the heap entries for field f of the struct at base (recursing into embedded objects).
@@ -509,6 +516,30 @@ func (tr *Trans) targetsOf(env *Env, e ast.Expr) ([]target, bool) {
 		switch fn {
 		case "__all":
 			return nil, true
+		case "ifaceobj":
+			// ifaceobj(x, "*pkg.T"): every field of the T object behind interface value x (if it is one)
+			v := env.eval(x.Args[0])
+			lit, ok := x.Args[1].(*ast.BasicLit)
+			if !ok {
+				env.fail("ifaceobj needs a type literal")
+				return nil, true
+			}
+			tn := strings.Trim(lit.Value, "\"")
+			t := tr.g.ld.lookupType(tn)
+			pt, okp := t.(*types.Pointer)
+			if t == nil || !okp || !isObjType(pt.Elem()) {
+				env.fail("ifaceobj: %s is not a pointer to a struct type", tn)
+				return nil, true
+			}
+			id := tr.g.typeID(t)
+			uf := tr.e.declareFun(fmt.Sprintf("unbox$%d", id), []Sort{SInt}, SInt)
+			ref := Term{fmt.Sprintf("(%s %s)", uf, v.C[0].S), SInt}
+			c := and(not(eq(v.C[0], intT(0))), eq(tr.dynType(v.C[0]), intT(int64(id))))
+			ts := tr.objTargets(pt.Elem(), ref, src)
+			for k := range ts {
+				ts[k].cond = c
+			}
+			return ts, false
 		case "when":
 			// when(cond, target): conditional frame
 			c := env.evalBool(x.Args[0])
